@@ -50,6 +50,11 @@ def type_facts(v: V, depth=0):
     out = []
     if isinstance(v.t, TList):
         out.append(list_len(v) >= 0)
+        if isinstance(v.t.elem, TList) and depth == 0:
+            # rows of a list of lists are lists too (non-negative length), at every index
+            j = z3.Int("j!rowlen")
+            row = V(v.t.elem, z3.Select(list_arr(v), j))
+            out.append(z3.ForAll([j], list_len(row) >= 0, patterns=[z3.Select(list_arr(v), j)]))
     elif isinstance(v.t, TDict):
         out.append(dict_card(v) >= 0)
     elif isinstance(v.t, TSet):
